@@ -1,6 +1,7 @@
 import NeumannModel.Common.Proto
 import NeumannModel.TwoPC.Model
 import NeumannModel.TwoPC.Recovery
+import NeumannModel.TwoPC.Restart
 import NeumannModel.TwoPC.VoteSplit
 /-
   Line-protocol driver for the 2PC model (C03).  State = one `Sys`.
@@ -16,9 +17,19 @@ import NeumannModel.TwoPC.VoteSplit
     cvote <tx> <sh> <y<h>:<k.k>|n|c<tx>> [sim]             (coordinator-level record_vote)
     race <tx> <shA> <voteA> <shB> <voteB> <sim>            (thread B's whole record_vote between the two critical
                                                             sections of thread A's; answer `race <B's result> / <A's result>`)
-    crecover | ccomplete_commit <tx> | ccomplete_abort <tx> | cforce <tx> <0|1>
-                                                           (coordinator recovery API, Recovery.lean; outside the alphabet)
+    crecover | ccomplete_commit <tx> | ccomplete_abort <tx>
+                                                           (coordinator recovery API, Recovery.lean: recover() + re-send of the
+                                                            pending decisions, complete_*; inside the restart alphabet `ReachK`)
+    cforce <tx> <0|1>                                      (force_resolve; outside the alphabet)
+    ckpt                                                   (save_to_store: `EvK.checkpoint`, Restart.lean)
+    crestore                                               (crash + load_from_store: `EvK.restore`; `!outside` when the stored
+                                                            checkpoint is not the present pending map)
+    cphase <tx> <phase>                                    (a DOCTORED pending entry: sets the phase; `!outside`; only used to
+                                                            compare recover() on every phase, also the unreachable ones)
     dump
+  An event is tagged `!outside` when it leaves the property's alphabet: participant cleanups, lock expiry, forged
+  participant YES, force_resolve, a doctored phase, a stale restore, and a timeout sweep / abort() that runs over a
+  `Committing` entry (`Sys.sparesCommitting`).
   Answer of an event: `<result> | <messages appended to the pool>`.
 -/
 open Neumann Neumann.Proto Neumann.TwoPC
@@ -32,6 +43,11 @@ def parseDotted (s : String) : Option (List Nat) :=
 def showPhase : Phase → String
   | .preparing => "preparing" | .prepared => "prepared" | .committing => "committing"
   | .committed => "committed" | .aborting => "aborting" | .aborted => "aborted"
+
+def parsePhase : String → Option Phase
+  | "preparing" => some .preparing | "prepared" => some .prepared | "committing" => some .committing
+  | "committed" => some .committed | "aborting" => some .aborting | "aborted" => some .aborted
+  | _ => none
 
 def sortOn {α : Type} (f : α → Nat) (xs : List α) : List α :=
   xs.mergeSort (fun a b => decide (f a ≤ f b))
@@ -193,7 +209,7 @@ def showRes : Res → String
 def runEv (s : Sys) (e : Ev) : Sys × String :=
   let r := s.stepR e
   let newMsgs := r.1.msgs.drop s.msgs.length
-  let tag := if s.inAlphabet e then "" else " !outside"
+  let tag := if s.inAlphabet e && s.sparesCommitting (.base e) then "" else " !outside"
   (r.1, s!"{showRes r.2}{tag} | {" ".intercalate (newMsgs.map showMsg)}")
 
 def parsePerShard (shards : List Nat) (s : String) : Option (List (Nat × List Op)) := do
@@ -268,20 +284,20 @@ def twopcStep (s : Sys) (line : String) : Sys × String :=
     let st := (s.coord.recover s.now).2
     let s' := s.stepX .coordRecover
     let dec := (sortOn (·.1) s'.coord.pendingDecisions).map (fun e => s!"{e.1}:{showPhase e.2}")
-    (s', s!"rec {st.pendingPrepare} {st.pendingCommit} {st.pendingAbort} {st.timedOut} {st.completed} dec {if dec.isEmpty then "-" else ",".intercalate dec} !outside | {" ".intercalate ((s'.msgs.drop s.msgs.length).map showMsg)}")
+    (s', s!"rec {st.pendingPrepare} {st.pendingCommit} {st.pendingAbort} {st.timedOut} {st.completed} dec {if dec.isEmpty then "-" else ",".intercalate dec} | {" ".intercalate ((s'.msgs.drop s.msgs.length).map showMsg)}")
   | ["ccomplete_commit", t] =>
     match t.toNat? with
     | some t =>
       match s.coord.completeCommit t with
-      | .ok _ => (s.stepX (.completeCommit t), "ok !outside |")
-      | .error e => (s, s!"err {showCoordErr e} !outside |")
+      | .ok _ => (s.stepX (.completeCommit t), "ok |")
+      | .error e => (s, s!"err {showCoordErr e} |")
     | none => bad
   | ["ccomplete_abort", t] =>
     match t.toNat? with
     | some t =>
       match s.coord.completeAbort t with
-      | .ok _ => (s.stepX (.completeAbort t), "ok !outside |")
-      | .error e => (s, s!"err {showCoordErr e} !outside |")
+      | .ok _ => (s.stepX (.completeAbort t), "ok |")
+      | .error e => (s, s!"err {showCoordErr e} |")
     | none => bad
   | ["cforce", t, b] =>
     match t.toNat?, b.toNat? with
@@ -292,7 +308,34 @@ def twopcStep (s : Sys) (line : String) : Sys × String :=
         (s', s!"ok !outside | {" ".intercalate ((s'.msgs.drop s.msgs.length).map showMsg)}")
       | .error e => (s, s!"err {showCoordErr e} !outside |")
     | _, _ => bad
+  | ["cphase", t, ph] =>
+    match t.toNat?, parsePhase ph with
+    | some t, some ph =>
+      match findTx s.coord.pending t with
+      | some e => ({ s with coord := { s.coord with pending := setTx s.coord.pending t { e with phase := ph } } }, "ok !outside |")
+      | none => (s, "err not_found !outside |")
+    | _, _ => bad
   | ["dump"] => (s, showSys s)
   | _ => bad
 
-def main : IO Unit := run twopcStep (Sys.init [] 0 0 0)
+def showSaved : Option CoordState → String
+  | none => "-"
+  | some st => "[" ++ ",".intercalate ((sortOn (·.id) st.pending).map showTx) ++ "]"
+
+/-- the state with the checkpoint store (`SysK`, Restart.lean) around `twopcStep` -/
+def twopcStepK (k : SysK) (line : String) : SysK × String :=
+  match words line with
+  | "init" :: _ =>
+    let r := twopcStep k.sys line
+    (⟨r.1, none⟩, r.2)
+  | ["ckpt"] => (k.stepK .checkpoint, "ok |")
+  | ["crestore"] =>
+    let k' := k.stepK .restore
+    let tag := if k.inAlphabetK .restore then "" else " !outside"
+    (k', s!"restored {k'.sys.coord.pending.length}{tag} |")
+  | ["dump"] => (k, s!"{showSys k.sys}|K:{showSaved k.saved}")
+  | _ =>
+    let r := twopcStep k.sys line
+    ({ k with sys := r.1 }, r.2)
+
+def main : IO Unit := run twopcStepK (SysK.init [] 0 0 0)
